@@ -24,6 +24,7 @@ import (
 	"pgregory.net/rapid"
 
 	"verif/ev"
+	"verif/gdsl"
 	"verif/pgen"
 	"verif/sdsl"
 	"verif/world"
@@ -203,6 +204,30 @@ func genC07(t *rapid.T) c07Case {
 		// files of one and not of the other
 		c.Prog = pgen.GenChainOpts(t, rapid.IntRange(1, 2).Draw(t, "twodepth"), []uint64{0, 0, 1, c.Seg}, pgen.ChainOpts{Siblings: true})
 		twoPerStage = true
+	}
+	if !twoPerStage && rapid.IntRange(0, 5).Draw(t, "clockfed") == 0 {
+		// a mapper that runs on every block because it reads the clock, next to inputs that are no values (a store in
+		// get mode, its params): when its outputs are missing and the store's are cached, the job must still read the
+		// chain, the cached files do not name every block
+		k := sdsl.AllKinds()[rapid.IntRange(0, len(sdsl.AllKinds())-1).Draw(t, "clockfedkind")]
+		si := rapid.SampledFrom([]uint64{0, 0, 1, c.Seg}).Draw(t, "clockfedinit")
+		g := gdsl.Graph{Mods: []gdsl.Mod{
+			// the store runs on the blocks on which a sparse mapper has an output: its cached files name those blocks only
+			{Name: "map_m", Kind: "map", Initial: si, Inputs: []gdsl.In{{T: "source", Ref: gdsl.BlockType}}},
+			{Name: "store_s", Kind: "store", Policy: k.Policy, VType: k.VType, Initial: si, Inputs: []gdsl.In{{T: "map", Ref: "map_m"}}},
+			{Name: "map_r", Kind: "map", Initial: si + rapid.SampledFrom([]uint64{0, 0, 1}).Draw(t, "clockfedabove"), Inputs: []gdsl.In{{T: "source", Ref: gdsl.ClockType}, {T: "store", Ref: "store_s", Mode: "get"}}},
+		}}
+		if rapid.Bool().Draw(t, "clockfedparams") {
+			g.Mods[2].Inputs = append([]gdsl.In{{T: "params", Value: "p"}}, g.Mods[2].Inputs...)
+		}
+		for i := range g.Mods {
+			g.Mods[i].Entry = g.Mods[i].Name
+		}
+		c.Prog = pgen.GenBehaviours(t, g)
+		bm := c.Prog.Beh["map_m"]
+		bm.Sparse = rapid.SampledFrom([]uint64{2, 3}).Draw(t, "clockfedsparse")
+		bm.SkipEmpty = true // nothing is recorded for the blocks on which it is silent
+		c.Prog.Beh["map_m"] = bm
 	}
 	c.Run = genRun(t, c.Prog, c.Seg, c.Head)
 	c.Run.Workers = rapid.IntRange(1, 3).Draw(t, "c07workers")
@@ -452,7 +477,7 @@ var _ = bytes.Equal
 
 func TestC07(t *testing.T) {
 	r := ev.Get("C07", "Subsets")
-	r.Rule = "rapid: generated program + request with <= ~4 segments; file universe = files left by a complete run on an empty cache plus the partial stores harvested after each segment job (before the squasher deletes them) plus truncated debris under dstore's temporary name; each case tries 3..8 subsets (crash points = prefixes of the write order, single evictions, random subsets; thorough: every subset when the universe has <= 9 files); oracle: the request completes, its stream and final stores satisfy the C01 oracle against the sequential execution, every file left behind that the clean run also leaves decodes to equivalent content (stores typed, outputs, index bitmaps); non-trivial = subset neither empty nor the whole universe; counters report subsets run"
+	r.Rule = "rapid: generated program (one in six: a mapper reading the clock and a store in get mode fed by a sparse mapper, whose cached files name only some blocks) + request with <= ~4 segments; file universe = files left by a complete run on an empty cache plus the partial stores harvested after each segment job (before the squasher deletes them) plus truncated debris under dstore's temporary name; each case tries 3..8 subsets (crash points = prefixes of the write order, single evictions, random subsets; thorough: every subset when the universe has <= 9 files); oracle: the request completes, its stream and final stores satisfy the C01 oracle against the sequential execution, every file left behind that the clean run also leaves decodes to equivalent content (stores typed, outputs, index bitmaps); non-trivial = subset neither empty nor the whole universe; counters report subsets run"
 	rapid.Check(t, func(rt *rapid.T) {
 		c := genC07(rt)
 		r.Begin(c)
